@@ -250,8 +250,8 @@ Proof. repeat split; vm_compute; reflexivity. Qed.
    v1; required BYTE_ARRAY with a dictionary page, RLE + bit-packed indices, v2), identity "compression":
    the decoder returns the denoted table and the validator accepts *)
 Definition ex_file : lfile :=
-  {| l_leaves := [ {| ll_name := [97]; ll_type := INT32; ll_tlen := 0; ll_optional := true; ll_conv := None; ll_logical := None |};
-                   {| ll_name := [115]; ll_type := BYTE_ARRAY; ll_tlen := 0; ll_optional := false; ll_conv := Some 0%Z; ll_logical := None |} ];
+  {| l_leaves := [ {| ll_name := [97]; ll_type := INT32; ll_tlen := 0; ll_optional := true; ll_conv := None; ll_logical := None; ll_scale := None; ll_prec := None |};
+                   {| ll_name := [115]; ll_type := BYTE_ARRAY; ll_tlen := 0; ll_optional := false; ll_conv := Some 0%Z; ll_logical := None; ll_scale := None; ll_prec := None |} ];
      l_rgs := [ [ {| lc_codec := 0%Z; lc_stats := true;
                      lc_items := [ LData {| lp_v2 := false; lp_nvals := 3; lp_def := [RLE 1 1; BP [0; 1]];
                                             lp_store := SPlain [VNum 7; VNum 4294967295]; lp_iscomp := None; lp_trail := [] |} ] |};
